@@ -13,27 +13,34 @@ _K = dict(kclass=C09Kernel, requires=_R)
 
 # one ray's column of the (surfaces, rays) record arrays
 _REC = {'self.optic.surface_group.' + a: 'list' for a in ('x', 'y', 'z', 'L', 'M', 'N', 'opd', 'intensity')}
-_TILT_T = {'field': 'pair', 'self.optic.field_type': 'str'}
-_TILT_O = {'self.optic.paraxial.EPD': 'num'}
+# the entries about media / vignetting factors / wavelength are only read by the code once the proposed fixes
+# (proposed_fixes/C09-*.diff) are applied; they are inert for the code as it stands
+_OBJ = {'self.optic.image_surface.material_pre': 'obj', 'self.optic.object_surface.material_post': 'obj'}
+_TILT_T = dict({'field': 'pair', 'self.optic.field_type': 'str'}, **_OBJ)
+_TILT_O = {'self.optic.paraxial.EPD': 'num', 'self.optic.object_surface.material_post.n': 'num',
+           'self.optic.image_surface.material_pre.n': 'num'}
+_VIG = ['self.optic.fields.get_vig_factor']
 
 MODULES = {
     'Wavefront': [
         dict(name='wf_ref_sphere', file=WF, cls='Wavefront', func='_get_reference_sphere', types=dict(_REC), **_K),
         dict(name='wf_image_to_xp', file=WF, cls='Wavefront', func='_opd_image_to_xp', types=dict(_REC), **_K),
-        dict(name='wf_get_path_length', file=WF, cls='Wavefront', func='_get_path_length', types=dict(_REC),
+        dict(name='wf_get_path_length', file=WF, cls='Wavefront', func='_get_path_length', types=dict(_REC, **_OBJ),
+             static={'wavelength': 'notnone'}, opaque_calls=dict(_TILT_O),
              calls={'self._opd_image_to_xp': 'wf_image_to_xp'}, **_K),
         # _correct_tilt as called for the chief ray (x=0, y=0 given) ...
         dict(name='wf_tilt_xy', file=WF, cls='Wavefront', func='_correct_tilt', types=dict(_TILT_T),
-             static={'x': 'notnone', 'y': 'notnone'}, opaque_calls=dict(_TILT_O), **_K),
+             static={'x': 'notnone', 'y': 'notnone', 'wavelength': 'notnone'}, opaque_calls=dict(_TILT_O),
+             opaque_pairs=_VIG, **_K),
         # ... and as called for the pupil batch (x, y default to the distribution's points)
         dict(name='wf_tilt_dist', file=WF, cls='Wavefront', func='_correct_tilt', types=dict(_TILT_T),
-             static={'x': 'none', 'y': 'none'}, opaque_calls=dict(_TILT_O), **_K),
+             static={'x': 'none', 'y': 'none', 'wavelength': 'notnone'}, opaque_calls=dict(_TILT_O),
+             opaque_pairs=_VIG, **_K),
         # _generate_field_data: everything after the trace (the trace itself is Model/Trace.v)
         dict(name='wf_field_data', file=WF, cls='Wavefront', func='_generate_field_data',
              types=dict(_REC, **_TILT_T), ignore_calls=['self.optic.trace'],
              calls={'self._get_path_length': 'wf_get_path_length', 'self._correct_tilt': 'wf_tilt_dist'},
-             opaque_calls=dict(_TILT_O), **_K),
-        dict(name='wf_opd_rms', file=WF, cls='OPD', func='rms', types={'self.data': 'wfdata'}, **_K),
+XX, file=WF, cls='OPD', func='rms', types={'self.data': 'wfdata'}, **_K),
         dict(name='wf_rms_vs_field', file=RV, cls='RmsWavefrontErrorVsField', func='_rms_wavefront_error',
              types={'self.data': 'wfdata', 'self.num_fields': 'int', 'self.wavelengths': 'list'}, **_K),
     ],
